@@ -281,6 +281,11 @@ let handle fields =
   | ["reparse"; c; s] ->
       show_result (fun ((st, t), r2) -> show_stmt st ^ "|" ^ field_of_ustr t ^ "|" ^ show_result show_stmt r2)
         (reparse (ctx_of_field c) (ustr_of_field s))
+  | ["ecanon"; s] ->
+      (* is the parsed expression in the canonical form of the C11 re-parse theorem, and does its rendering re-parse to it? *)
+      (match check_expr (ustr_of_field s) with
+       | Ok e -> if canon e && etext e then (match check_expr (print_expr e) with Ok e2 -> if e2 = e then "IN" else "IN-BUT-DIFFERS" | _ -> "IN-BUT-REJECTED") else "OUT"
+       | _ -> "NA")
   | ["frag"; c; s] ->
       (* is the parsed declaration inside the fragment of the C09 round-trip theorems? *)
       let cx = ctx_of_field c in
